@@ -742,6 +742,9 @@ class Macro(Element):
         """
         if charsubs is None:
             charsubs = self.ownerDocument.charsubs
+            # No quote or dash substitutions in math mode
+            if self.ownerDocument.context.isMathMode:
+                charsubs = []
 
         parname = None
         for item in self:
